@@ -30,9 +30,11 @@ def impl_assemble(args):
     from json_to_models.cli import Cli
     docs = {}
     models = []
+    by_id = {}
     for i, (name, lookup, ds) in enumerate(args):
         for j, d in enumerate(ds):
-            path = "f%d_%d.json" % (i, j)
+            # the same document object given to several arguments is the same file (path) given several times
+            path = by_id.setdefault(id(d), "f%d_%d.json" % (i, j))
             docs[path] = d
             models.append((name, lookup, path) if lookup is not None else (name, path))
     cli = Cli()
@@ -67,6 +69,11 @@ def correspondence(ctx, batch):
                 ds.append(d)
                 lookup = lk
             args.append((name, lookup if rng.random() < .8 else None, ds))
+        if len(args) >= 2 and rng.random() < 0.4:
+            # a file repeated in a later, non-adjacent argument with another lookup
+            src = rng.choice([a for a in args if a[2]] or [None])
+            if src is not None:
+                args.append((src[0], rng.choice(["-", "data", "a.b.c", "meta"]), [rng.choice(src[2])]))
         ans = stages.impl_call(lambda: impl_assemble(args))
         batch.add({"op": "assemble", "in": [[n, "-" if lk is None else lk, [conv.enc_json(d) for d in ds]]
                                             for n, lk, ds in args]}, ans, {"args": args})
@@ -138,7 +145,14 @@ def split_samples(rng, samples):
     k = rng.choice([1, 2, 3])
     cuts = sorted(rng.sample(range(len(samples) + 1), k=min(k - 1, len(samples) + 1))) if k > 1 else []
     parts = [samples[a:b] for a, b in zip([0] + cuts, cuts + [len(samples)])]
-    style = rng.choice(["m-each", "m-each", "lookup", "l", "glob", "single-objects"])
+    style = rng.choice(["m-each", "m-each", "lookup", "l", "glob", "single-objects", "repeat-file", "repeat-file"])
+    if style == "repeat-file" and len(samples) >= 3:
+        # one file used by two non-adjacent arguments (different lookups), another file between them
+        a, b, c = samples[:1], samples[1:2], samples[2:]
+        files["r0.json"] = {"first": a, "second": c}
+        files["r1.json"] = b
+        argv += ["-m", "Root", "first", "r0.json", "-m", "Root", "r1.json", "-m", "Root", "second", "r0.json"]
+        return files, argv, fmt, style
     if style == "glob":
         for i, p in enumerate(parts):
             files["g/part%d.json" % i] = p
